@@ -3,7 +3,7 @@
 From Coq Require Import List ZArith Bool Arith Lia.
 From SC Require Import Base.Res Base.PyList Inst.Heap Inst.ClassTable Inst.Model Inst.Framed
   Inst.TypeProofs Inst.OwnProofs Inst.OwnProofs2 Inst.OwnProofs3 Inst.OwnColl Inst.OwnCopy Inst.OwnCow
-  Inst.OwnInit.
+  Inst.OwnInit Inst.OwnMore.
 Import ListNotations.
 Open Scope nat_scope.
 Set Warnings "-unused-intro-pattern".
@@ -333,4 +333,101 @@ Proof.
   - apply step_delattr; auto. now apply del_ok_b_sound.
   - destruct hp; try discriminate. apply andb_true_iff in Hop. destruct Hop as [H1 H2].
     apply step_reset_inplace; auto. now apply del_ok_b_sound.
+Qed.
+
+
+(* ------------------------------------------------------------------ *)
+(** * update_<item>, transform_<item>, update_<a>, transform_<a> *)
+Definition dflt_nonref_b (ct : ctable) (h : heap_t) (recv : val) (a : aid) : bool :=
+  match recv with
+  | VRef l =>
+      match nth_error h l with
+      | Some (OInst cl d) =>
+          match lookup_cls ct cl with
+          | Some k => match assoc a d with None => nonref_b (class_default k a) | Some _ => true end
+          | None => true end
+      | _ => true end
+  | _ => true
+  end.
+
+Definition is_nil {A} (l : list A) : bool := match l with [] => true | _ => false end.
+
+(* Operations covered: those of owned_opf_b, and (f a quiet function: qfn)
+   - update_<item>(old, new): in place and copy-on-write, any arguments;
+   - transform_<item>(x, f): in place and copy-on-write;
+   - update_<a>(v), v a real value nobody references: in place and copy-on-write;
+   - transform_<a>(f): copy-on-write. *)
+Definition owned_opg_b (ct : ctable) (h : heap_t) (roots : list val) (o : op) : bool :=
+  owned_opf_b ct h roots o ||
+  match o with
+  | OpHelper x (HUpdateItem a) hh =>
+      is_none (h_kw hh) &&
+      (if h_inplace hh
+       then recv_leafc_b ct h (nth x roots VNone) a && dflt_missing_b ct h (nth x roots VNone) a
+       else recv_flat_b ct h (nth x roots VNone) a true)
+  | OpHelper x (HTransformItem a) hh =>
+      is_nil (h_kwfn hh) && oqfn_b (h_fn hh) &&
+      (if h_inplace hh
+       then recv_leafc_b ct h (nth x roots VNone) a && dflt_missing_b ct h (nth x roots VNone) a
+       else recv_flat_b ct h (nth x roots VNone) a true)
+  | OpHelper x (HUpdate a) hh =>
+      is_none (h_kw hh) && negb (is_sentinel (pos0 hh)) && loose_b h (pos0 hh) &&
+      (if h_inplace hh then recv_leafa_b ct h (nth x roots VNone) a
+       else recv_flat_b ct h (nth x roots VNone) a false)
+  | OpHelper x (HTransform a) hh =>
+      negb (h_inplace hh) && is_nil (h_kwfn hh) && oqfn_b (h_fn hh) &&
+      recv_flat_b ct h (nth x roots VNone) a false && dflt_nonref_b ct h (nth x roots VNone) a
+  | _ => false
+  end.
+
+Theorem step_preserves_owned_g ct roots o s :
+  flat_table ct -> no_inval_b ct = true -> no_reserved_b ct = true ->
+  owned_opg_b ct (heap s) roots o = true ->
+  TypeInv ct s -> Owned ct (heap s) ->
+  TypeInv ct (snd (step ct roots o s)) /\ Owned ct (heap (snd (step ct roots o s))).
+Proof.
+  intros Hf Hn Hr Hop T O. unfold owned_opg_b in Hop. apply orb_true_iff in Hop.
+  destruct Hop as [Hop|Hop]; [now apply step_preserves_owned_final|].
+  pose proof (no_inval_b_sound ct Hn) as Hn'. pose proof (no_reserved_b_sound ct Hr) as Hr'.
+  assert (I : Inv ct (heap s)) by (split; auto).
+  change (Inv ct (heap (snd (step ct roots o s)))).
+  destruct o as [| | | x hp hh | |]; try discriminate.
+  unfold step. destruct (nth x roots VNone) as [| | | | | | | |l] eqn:Er;
+    try (destruct hp; exact I).
+  cbn [loc_of]. rewrite bind_ret_l.
+  destruct hp; try discriminate.
+  - (* update_<a> *)
+    rewrite !andb_true_iff in Hop. destruct Hop as [[[H1 H2] H3] H4].
+    assert (Hkw : h_kw hh = None) by (destruct (h_kw hh); auto; discriminate).
+    apply negb_true_iff in H2. apply loose_b_iff in H3.
+    destruct (h_inplace hh) eqn:Hin.
+    + apply update_inplace; auto. eapply recv_leafa_b_sound; eauto.
+    + destruct (recv_flat_b_sound ct (heap s) l a false H4) as (cl & d & k & FR & Hla & _).
+      eapply update_cow; eauto.
+  - (* transform_<a> *)
+    rewrite !andb_true_iff in Hop. destruct Hop as [[[[H1 H2] H3] H4] H5].
+    apply negb_true_iff in H1.
+    assert (Hkf : h_kwfn hh = []) by (destruct (h_kwfn hh); auto; discriminate).
+    destruct (recv_flat_b_sound ct (heap s) l a false H4) as (cl & d & k & FR & Hla & _).
+    eapply transform_cow; eauto; [now apply oqfn_b_sound|].
+    intros As. destruct FR as (N & Hk & _). simpl in H5. rewrite N, Hk, As in H5. now apply nonref_b_sound.
+  - (* update_<item> *)
+    rewrite !andb_true_iff in Hop. destruct Hop as [H1 H3].
+    assert (Hkw : h_kw hh = None) by (destruct (h_kw hh); auto; discriminate).
+    destruct (h_inplace hh) eqn:Hin.
+    + apply andb_true_iff in H3. destruct H3 as [H3 H4].
+      apply update_item_inplace; auto; [eapply recv_leafc_b_sound; eauto|].
+      exact (dflt_missing_b_sound ct (heap s) _ a H4 l eq_refl).
+    + destruct (recv_flat_b_sound ct (heap s) l a true H3) as (cl & d & k & FR & Hla & D).
+      eapply update_item_cow; eauto.
+  - (* transform_<item> *)
+    rewrite !andb_true_iff in Hop. destruct Hop as [[H1 H2] H3].
+    assert (Hkf : h_kwfn hh = []) by (destruct (h_kwfn hh); auto; discriminate).
+    apply oqfn_b_sound in H2.
+    destruct (h_inplace hh) eqn:Hin.
+    + apply andb_true_iff in H3. destruct H3 as [H3 H4].
+      apply transform_item_inplace; auto; [eapply recv_leafc_b_sound; eauto|].
+      exact (dflt_missing_b_sound ct (heap s) _ a H4 l eq_refl).
+    + destruct (recv_flat_b_sound ct (heap s) l a true H3) as (cl & d & k & FR & Hla & D).
+      eapply transform_item_cow; eauto.
 Qed.
